@@ -152,6 +152,17 @@ async def lexer_state(st, idx, sd, acc, n_dead):
             acc.c("validity_checks")
             if k != "returned" or r[0] is not False or not r[1]:
                 acc.v(f"is_valid_expression({s!r}): {k} {r}, expected (False, message)", dict(case, entry="validity"))
+    # the same condition text behind an indicator: an AHB expression whose condition part is exactly this string
+    if idx % 2 == 0 and s.strip(" \t\n\r\f") != "":      # (whitespace after a bare indicator is not asserted either way)
+        word = rng.choice(["Muss", "m", "Soll ", "K", "X", "u "])
+        s3 = word + rng.choice(["", " "]) + s
+        if not (word.strip() in ("X", "u") and s[:1] in "UuOoXx"):
+            v3, _ = await parse_resolver(s3)
+            acc.c("parses")
+            exp3 = exp
+            if v3 != exp3:
+                acc.v(f"resolver on {s3!r}: {v3}; the condition part {s!r} is {'well-formed' if exp == 'accept' else 'not a well-formed condition expression'}",
+                      {"string": s3, "expected": exp3, "entry": "resolver"})
     dead = sorted(set(ALL_CLASSES) - set(st["obs"]["en"]))
     rng.shuffle(dead)
     for c in dead[:n_dead]:
@@ -294,6 +305,18 @@ def lexer_traces(res, work, n):
             res.violation(f"condition parser on {s!r}: {v}; only SyntaxError may escape", {"string": s, "entry": "condition"})
             continue
         traces.append({"id": tid, "chars": classify(s), "verdict": v, "string": s})
+    # very deep nesting (the parsers must cope with it: no RecursionError or the like) and one-character mutations of it
+    tid = len(traces)
+    for depth in (40, 300, 600):
+        base = "".join(f"[{i}] {rng.choice('UOX')} (" for i in range(1, depth)) + f"[{depth}]" + ")" * (depth - 1)
+        for variant in (base, base[:-1], base.replace("(", "((", 1) + ")", base[:len(base) // 2] + ")" + base[len(base) // 2:]):
+            tid += 1
+            v = parse_cond(variant)
+            if v.startswith("exception"):
+                res.violation(f"condition parser on an expression nested {depth} levels deep ({len(variant)} characters): {v}; only SyntaxError may escape",
+                              {"string": variant, "entry": "condition"})
+                continue
+            traces.append({"id": tid, "chars": classify(variant), "verdict": v, "string": variant})
     slim = [{"id": t["id"], "chars": t["chars"], "verdict": t["verdict"]} for t in traces]
     t2, acc, diag = validate_traces("LexerTrace", "LexerTrace.cfg", slim, work, tag="lexertrace")
     res.add_tlc("LexerTrace: verdicts of the real condition parser on mutated random expressions (up to ~80 characters)", t2)
